@@ -2,6 +2,7 @@ package main
 
 import (
 	"bytes"
+	"encoding/binary"
 	"encoding/json"
 	"fmt"
 	"math"
@@ -119,6 +120,12 @@ func (c *c18ctx) check(f float64) {
 	}
 	w := c.w
 	c.count++
+	if c.count&1023 == 0 {
+		// the case file names the value being printed (crash attribution, watchdog progress)
+		var cs [8]byte
+		binary.LittleEndian.PutUint64(cs[:], math.Float64bits(f))
+		w.cur.Set(c.name, c.cfg.String(), cs[:])
+	}
 	w.res.Evaluations++
 	w.res.Transitions++
 	out, err := simdjson.VerifAppendFloat(c.buf[:0], f)
